@@ -131,6 +131,9 @@ def new_helpers(prog, vocab):
                 and it_.split("::")[0] in ("core", "alloc", "std")
             if not tr_new and not ty_new:
                 continue
+            # `Drop::drop` is never called by name (the compiler runs it): it is not a helper, and must stay a body of its own
+            if it_.endswith("ops::drop::Drop"):
+                continue
         if b.raw.get("reachable") is True or b.n > MAX_BLOCKS:
             continue
         if any(fr is not None and prog.resolve_local(fr) is b for _, _, fr in b.iter_calls()):
@@ -293,8 +296,64 @@ def inline_call(caller_raw, b, helper_raw):
         else:
             nb["term"] = _term(ht, loff, boff, smap)
         caller_raw["blocks"].append(nb)
+    # a function item passed as an argument (`helper(.., register_x::<C>)`) is a constant: where the helper's body moves
+    # that parameter on (into a call), the constant itself is what flows - provided the helper never re-assigns the parameter
+    queue_ = [(loff + 1 + i, a) for i, a in enumerate(t["args"])
+              if i + 1 <= helper_raw["arg_count"] and isinstance(a, dict) and isinstance(a.get("const"), dict) and a["const"].get("fn")]
+    done_ = set()
+    while queue_:
+        pl, a = queue_.pop()
+        if pl in done_:
+            continue
+        done_.add(pl)
+        reassigned = False
+        for nb in caller_raw["blocks"][boff:]:
+            for st in nb["stmts"]:
+                if st["k"] == "assign" and st["place"]["l"] == pl:
+                    reassigned = True
+            tt = nb["term"]
+            if tt["k"] == "call" and tt["dest"]["l"] == pl:
+                reassigned = True
+        if reassigned:
+            continue
+        def _sub(x, pl=pl, a=a):
+            if isinstance(x, dict):
+                for kk in ("move", "copy"):
+                    if kk in x and isinstance(x[kk], dict) and x[kk].get("l") == pl and not x[kk].get("p"):
+                        return copy.deepcopy(a)
+                return {k2: _sub(v2) for k2, v2 in x.items()}
+            if isinstance(x, list):
+                return [_sub(v2) for v2 in x]
+            return x
+        for nb in caller_raw["blocks"][boff:]:
+            nb["stmts"] = [_sub(st) for st in nb["stmts"]]
+            nb["term"] = _sub(nb["term"])
+        # the helper's own temporaries that now hold the constant (`let f = system; call(f)`)
+        for nb in caller_raw["blocks"][boff:]:
+            for st in nb["stmts"]:
+                if st["k"] == "assign" and not st["place"]["p"] and st["place"]["l"] >= loff and "use" in st.get("rv", {}) \
+                        and isinstance(st["rv"]["use"].get("const"), dict) and st["rv"]["use"]["const"].get("fn"):
+                    l2 = st["place"]["l"]
+                    nas = sum(1 for nb2 in caller_raw["blocks"][boff:] for st2 in nb2["stmts"] if st2["k"] == "assign" and st2["place"]["l"] == l2) \
+                        + sum(1 for nb2 in caller_raw["blocks"][boff:] if nb2["term"]["k"] == "call" and nb2["term"]["dest"]["l"] == l2)
+                    if nas == 1 and l2 not in done_:
+                        done_.add(l2)
+                        a2 = st["rv"]["use"]
+                        def _sub2(x, l2=l2, a2=a2):
+                            if isinstance(x, dict):
+                                for kk in ("move", "copy"):
+                                    if kk in x and isinstance(x[kk], dict) and x[kk].get("l") == l2 and not x[kk].get("p"):
+                                        return copy.deepcopy(a2)
+                                return {k2: _sub2(v2) for k2, v2 in x.items()}
+                            if isinstance(x, list):
+                                return [_sub2(v2) for v2 in x]
+                            return x
+                        for nb3 in caller_raw["blocks"][boff:]:
+                            nb3["term"] = _sub2(nb3["term"])
     blk["term"] = {"k": "goto", "t": boff, "line": t["line"], "exp": None, "inlined": helper_raw["path"]}
     seeds = caller_raw.setdefault("thread_seeds", [])
+    for sd_ in helper_raw.get("thread_seeds") or []:
+        seeds.append(loff + sd_)             # what was worth separating inside the helper still is
     seeds.append(loff)                       # the helper's return place
     if not dest["p"]:
         seeds.append(dest["l"])              # the call's destination
@@ -437,6 +496,9 @@ COMBINATORS = {
     "Result::and_then": ("result", "good", "raw"), "Result::map": ("result", "good", "good"),
     "Result::map_err": ("result", "bad", "bad"), "Option::ok_or_else": ("option", "bad0", "to_err"),
     "Option::unwrap_or_else": ("option", "bad0", "unwrap"), "Option::or_else": ("option", "bad0", "raw_opt"),
+    # predicates: the closure's bool on the variant it sees, a constant on the other
+    "Option::is_some_and": ("option", "good", "raw_false"), "Option::is_none_or": ("option", "good", "raw_true"),
+    "Result::is_ok_and": ("result", "good", "raw_false"), "Result::is_err_and": ("result", "bad", "raw_false"),
 }
 
 
@@ -496,6 +558,20 @@ def desugar_combinators(raws, facts):
                     mutating = tgt_ is not None and any(tgt_["locals"][i_]["ty"].startswith("&mut") for i_ in range(1, tgt_["arg_count"] + 1))
                     if mutating or _T.classify(cfr_["path"]) in ("order-preserving-remove", "order-destroying", "append-ordered"):
                         interesting = True
+            # ... or that are a bare field projection (`|inner| inner.id`): no call at all, so nothing a rule reads as an idiom,
+            # and the value's provenance (which field of which record) becomes visible in the parent
+            if not interesting and nm in ("Option::map", "Result::map"):
+                cbs_ = [cb_ for cb_ in clo_raw["blocks"] if not cb_["cleanup"]]
+                def _plain_term(ct_):
+                    if ct_["k"] in ("return", "goto"):
+                        return True
+                    if ct_["k"] == "call":       # smart-pointer plumbing (`Res<T>` -> `&T`)
+                        f_ = op_fn(ct_["func"])
+                        return f_ is not None and mir.tail2(f_["path"]) in ("Deref::deref", "DerefMut::deref_mut")
+                    return False
+                if all(_plain_term(cb_["term"]) for cb_ in cbs_) and \
+                        all(st_["k"] != "assign" or "use" in st_["rv"] or "ref" in st_["rv"] for cb_ in cbs_ for st_ in cb_["stmts"]):
+                    interesting = True
             if not interesting:
                 continue
             L = raw["locals"]
@@ -541,7 +617,7 @@ def desugar_combinators(raws, facts):
                       "term": {"k": "call", "func": {"const": {"fn": {"path": clo_raw["path"], "resolved": clo_raw["path"], "args": []}, "ty": "fn"}}, "args": cargs,
                                "dest": {"l": l_r, "p": []}, "t": WRAP, "unwind": None, "line": line, "exp": None}})
             # wrap the closure's result
-            if wrap in ("raw", "raw_opt", "unwrap"):
+            if wrap in ("raw", "raw_opt", "unwrap", "raw_false", "raw_true"):
                 wst = [{"k": "assign", "place": copy.deepcopy(dest), "rv": {"use": {"move": {"l": l_r, "p": []}}}, "line": line, "exp": None, "inl": True}]
             else:
                 dadt = "core::option::Option" if dty.startswith("core::option::Option<") else "core::result::Result"
@@ -553,7 +629,11 @@ def desugar_combinators(raws, facts):
                                                                                  "ops": [{"move": {"l": l_r, "p": []}}]}}, "line": line, "exp": None, "inl": True}]
             B.append({"cleanup": False, "stmts": wst, "term": {"k": "goto", "t": exit_t, "line": line, "exp": None}})
             # the variant the closure does not see
-            if wrap == "unwrap":        # Some(x) => x
+            if wrap in ("raw_false", "raw_true"):
+                bv = 1 if wrap == "raw_true" else 0
+                ost = [{"k": "assign", "place": copy.deepcopy(dest), "rv": {"use": {"const": {"ty": "bool", "val": bv, "repr": "true" if bv else "false"}}},
+                        "line": line, "exp": None, "inl": True}]
+            elif wrap == "unwrap":        # Some(x) => x
                 ost = [{"k": "assign", "place": copy.deepcopy(dest), "rv": {"use": {"move": {"l": vp["l"], "p": [{"downcast": 1, "name": "Some"}, {"f": 0, "ty": dty, "name": "0", "variant": "Some", "adt": adt}]}}},
                         "line": line, "exp": None, "inl": True}]
             elif wrap == "raw_opt":     # Some(x) => Some(x)
@@ -601,12 +681,13 @@ def devirtualise_closure_calls(raws, facts):
     argument convention: environment, argument tuple) so that interprocedural rules follow it. Only in bodies that received
     an inlining; the call is left alone unless its first argument is exactly one closure aggregate."""
     n = 0
+    inlined_closures = []
     cur = mir.Program(dict(facts, bodies=list(raws.values())))
-    for path, raw in raws.items():
+    for path, raw in list(raws.items()):
         if not any(b.get("term", {}).get("inlined") for b in raw["blocks"]):
             continue
         body = cur.by_path[path]
-        for b, blk in enumerate(raw["blocks"]):
+        for b, blk in enumerate(list(raw["blocks"])):
             t = blk["term"]
             if t["k"] != "call":
                 continue
@@ -642,6 +723,57 @@ def devirtualise_closure_calls(raws, facts):
                 continue
             t["func"] = {"const": {"fn": {"path": ag["closure"], "resolved": ag["closure"], "args": [], "devirtualised": fr["path"]}, "ty": "fn"}}
             n += 1
+            # ... and, when the argument tuple is built right here, inline the (small) closure body at the call: what the
+            # closure does with the value the helper hands it (an id, a guard) is then part of the caller's own flow
+            clo_raw = raws[ag["closure"]]
+            if len(t["args"]) != 2 or len(clo_raw["blocks"]) >= 60 or ag["closure"] == path or t.get("t") is None:
+                continue
+            tup = None
+            tos = mir.origins(body, t["args"][1])
+            if len(tos) == 1:
+                o2 = next(iter(tos))
+                if o2[0] == "agg" and len(o2) == 3 and o2[2] < len(raw["blocks"][o2[1]]["stmts"]):
+                    tup = raw["blocks"][o2[1]]["stmts"][o2[2]]["rv"].get("agg")
+            if not tup or tup.get("kind") != "tuple" or len(tup["ops"]) + 1 != clo_raw["arg_count"]:
+                continue
+            # the operands of the tuple must still hold their values at the call (plain locals assigned once)
+            okops = True
+            for op_ in tup["ops"]:
+                p_ = mir.op_place(op_)
+                if p_ is not None and (p_["p"] or len([d_ for d_ in body.defs.get(p_["l"], []) if d_[0] in ("stmt", "call", "partial", "partialcall")]) != 1):
+                    okops = False
+            if not okops:
+                continue
+            sty = clo_raw["locals"][1]["ty"]
+            cp = mir.op_place(t["args"][0])
+            if cp is None:
+                continue
+            L = raw["locals"]
+            L.append({"ty": sty, "name": None})
+            l_self = len(L) - 1
+            line = t.get("line")
+            if sty.startswith("&mut"):
+                blk["stmts"].append({"k": "assign", "place": {"l": l_self, "p": []}, "rv": {"ref": {"l": cp["l"], "p": list(cp["p"])}, "mut": True}, "line": line, "exp": None, "inl": True})
+            elif sty.startswith("&"):
+                blk["stmts"].append({"k": "assign", "place": {"l": l_self, "p": []}, "rv": {"ref": {"l": cp["l"], "p": list(cp["p"])}, "mut": False}, "line": line, "exp": None, "inl": True})
+            else:
+                blk["stmts"].append({"k": "assign", "place": {"l": l_self, "p": []}, "rv": {"use": {"move": {"l": cp["l"], "p": list(cp["p"])}}}, "line": line, "exp": None, "inl": True})
+            t["args"] = [{"move": {"l": l_self, "p": []}}] + [copy.deepcopy(op_) for op_ in tup["ops"]]
+            inline_call(raw, b, copy.deepcopy(clo_raw))
+            inlined_closures.append(ag["closure"])
+    # a closure that now lives inside its caller and is not referenced by any other call is dropped (its stand-alone body
+    # would be read out of context)
+    for cpath in set(inlined_closures):
+        still = False
+        for raw in raws.values():
+            for blk in raw["blocks"]:
+                t = blk["term"]
+                if t["k"] == "call":
+                    fr = op_fn(t["func"])
+                    if fr is not None and fr.get("path") == cpath:
+                        still = True
+        if not still and cpath in raws and not any(r.get("parent") == cpath or r.get("root") == cpath for r in raws.values()):
+            del raws[cpath]
     return n
 
 
@@ -1293,6 +1425,176 @@ def adts_key(adts, ty):
     return ty
 
 
+def specialise_const_generics(facts):
+    """Const-generic specialisation (a semantics-preserving normalisation of the view): a crate function with a const
+    parameter (`fn hook<const SCOPED: bool>`) that is referenced with a literal argument (`hook::<false>`) gets one copy per
+    literal, in which the parameter is that constant and the switches on it are folded; the references are re-pointed to the
+    copy (transitively: `run::<false>` refers to `hook::<false>`). What a given instantiation *does* - which trackers it
+    starts - can then be read per instantiation instead of as the union over all of them. Returns (facts2, [copies])."""
+    bodies = {b["path"]: b for b in facts["bodies"]}
+
+    def walk(x, f):
+        if isinstance(x, dict):
+            f(x)
+            for v in x.values():
+                walk(v, f)
+        elif isinstance(x, list):
+            for v in x:
+                walk(v, f)
+
+    def const_params(raw):
+        gens = set(g for g in (raw.get("generics") or []) if not g.startswith("'"))
+        found = set()
+        def f(d):
+            c = d.get("const")
+            if isinstance(c, dict) and "val" not in c and "fn" not in c and c.get("repr") in gens and c.get("ty") in ("bool", "usize", "u8", "u32", "i32", "u64", "isize"):
+                found.add(c["repr"])
+        walk(raw["blocks"], f)
+        return found
+    cands = {}
+    for p, raw in bodies.items():
+        if raw.get("kind") == "closure" or not raw.get("generics"):
+            continue
+        cp = const_params(raw)
+        if cp:
+            cands[p] = cp
+    if not cands:
+        return facts, []
+    # ... and, transitively, the functions that only hand their const parameter on (`run::<S>` naming `hook::<S>`)
+    grew = True
+    while grew:
+        grew = False
+        for p, raw in bodies.items():
+            if raw.get("kind") == "closure" or not raw.get("generics"):
+                continue
+            own = set(g for g in raw["generics"] if not g.startswith("'"))
+            add = set()
+            def f2(d):
+                fr = d.get("fn")
+                if isinstance(fr, dict) and fr.get("path") in cands and isinstance(fr.get("args"), list):
+                    qg = [g for g in (bodies[fr["path"]].get("generics") or [])]
+                    qa = fr["args"]
+                    if len(qg) != len(qa):
+                        qg = [g for g in qg if not g.startswith("'")]
+                        qa = [a for a in qa if not a.startswith("'")]
+                    if len(qg) == len(qa):
+                        for g, a in zip(qg, qa):
+                            if g in cands[fr["path"]] and a in own:
+                                add.add(a)
+            walk(raw["blocks"], f2)
+            if add - cands.get(p, set()):
+                cands.setdefault(p, set()).update(add)
+                grew = True
+    out = {p: copy.deepcopy(b) for p, b in bodies.items()}
+    made = {}
+
+    def literal(a):
+        if a in ("true", "false"):
+            return 1 if a == "true" else 0
+        if re.match(r"^\d+(_?[iu](8|16|32|64|size))?$", a or ""):
+            return int(re.match(r"^\d+", a).group(0))
+        return None
+
+    def specialise(P, binding):
+        key = (P, tuple(sorted(binding.items())))
+        if key in made:
+            return made[key]
+        suffix = "__" + "_".join("%s_%s" % (k, binding[k][1]) for k in sorted(binding))
+        sp = P + suffix
+        made[key] = sp
+        raw = copy.deepcopy(bodies[P])
+        raw["path"] = sp
+        if raw.get("name"):
+            raw["name"] = raw["name"] + suffix
+        raw["specialised_from"] = P
+        def f(d):
+            c = d.get("const")
+            if isinstance(c, dict) and "val" not in c and "fn" not in c and c.get("repr") in binding:
+                v, rep = binding[c["repr"]]
+                c["val"] = v
+                c["repr"] = rep
+            fr = d.get("fn")
+            if isinstance(fr, dict) and isinstance(fr.get("args"), list):
+                fr["args"] = [binding[a][1] if a in binding else a for a in fr["args"]]
+        walk(raw["blocks"], f)
+        # fold the switches on the now-constant parameter
+        for blk in raw["blocks"]:
+            t = blk["term"]
+            if t["k"] != "switch":
+                continue
+            p = mir.op_place(t["op"])
+            val = None
+            if p is not None and not p["p"]:
+                for st in reversed(blk["stmts"]):
+                    if st["k"] == "assign" and not st["place"]["p"] and st["place"]["l"] == p["l"]:
+                        c = st.get("rv", {}).get("use", {}).get("const") if isinstance(st.get("rv", {}).get("use"), dict) else None
+                        if isinstance(c, dict) and "val" in c and isinstance(c["val"], int):
+                            val = c["val"]
+                        break
+            elif isinstance(t["op"], dict) and isinstance(t["op"].get("const"), dict) and isinstance(t["op"]["const"].get("val"), int):
+                val = t["op"]["const"]["val"]
+            if val is not None:
+                tgt = dict((v, bb) for v, bb in t["targets"]).get(val, t["otherwise"])
+                blk["term"] = {"k": "goto", "t": tgt, "line": t.get("line"), "exp": t.get("exp"), "folded": True}
+        out[sp] = raw
+        retarget(raw)
+        return sp
+
+    def retarget(raw):
+        def f(d):
+            fr = d.get("fn")
+            if not (isinstance(fr, dict) and fr.get("path") in cands and isinstance(fr.get("args"), list)):
+                return
+            P = fr["path"]
+            gens = [g for g in (bodies[P].get("generics") or [])]
+            args = fr["args"]
+            if len(gens) != len(args):
+                gens = [g for g in gens if not g.startswith("'")]
+                args = [a for a in args if not a.startswith("'")]
+                if len(gens) != len(args):
+                    return
+            binding = {}
+            for g, a in zip(gens, args):
+                if g in cands[P]:
+                    v = literal(a)
+                    if v is None:
+                        return
+                    binding[g] = (v, a)
+            if not binding:
+                return
+            sp = specialise(P, binding)
+            fr["path"] = sp
+            if fr.get("resolved"):
+                fr["resolved"] = sp
+        walk(raw["blocks"], f)
+    for p in list(out):
+        if p not in cands:
+            retarget(out[p])
+    if not made:
+        return facts, []
+    # the generic original goes when nothing refers to it any more
+    still = set()
+    def g(d):
+        fr = d.get("fn")
+        if isinstance(fr, dict) and fr.get("path") in cands:
+            still.add(fr["path"])
+    for p, raw in out.items():
+        if p not in cands:
+            walk(raw["blocks"], g)
+    changed = True
+    while changed:        # generic originals that only refer to each other
+        changed = False
+        for p in list(cands):
+            if p in still and p in out:
+                before = len(still)
+                walk(out[p]["blocks"], g)
+                changed = changed or len(still) != before
+    for p in cands:
+        if p not in still and p in out:
+            del out[p]
+    return dict(facts, bodies=list(out.values())), sorted(made.values())
+
+
 def inlined_facts(facts, vocab=None):
     """returns (facts2, info) where facts2 is the helper-inlined view, or (None, info) when there is nothing to inline"""
     vocab = vocab if vocab is not None else load_vocab()
@@ -1302,9 +1604,15 @@ def inlined_facts(facts, vocab=None):
     for im in facts.get("impls", []):
         if im.get("trait") and im.get("self_adt"):
             _IMPL_INDEX[(im["self_adt"], im["trait"])] = {it["name"]: it["path"] for it in im.get("items", []) if it.get("kind") == "Fn"}
+    try:
+        facts, specialised = specialise_const_generics(facts)
+    except Exception as e:
+        specialised = ["error: %r" % (e,)]
     prog = mir.Program(facts)
     helpers = new_helpers(prog, vocab)
     info = {"new_helpers": sorted(mir.strip_generics(p) for p in helpers), "inlined_sites": 0, "dropped": [], "arm_split": []}
+    if specialised:
+        info["const_specialised"] = specialised
     raws = {b["path"]: copy.deepcopy(b) for b in facts["bodies"]}
     # arm splitting of the Command::apply impls (shared tails after a match on the command's variant)
     for path, raw in list(raws.items()):
